@@ -194,6 +194,15 @@ def named_family():
         {"name": "cs", "type": {"type": "array", "items": "C"}}]})
     # named types at top level inside unions / arrays
     out.append([E(), F(), R1()])
+    # branch names that are suffixes of one another, with fields of different types (a hint must match exactly)
+    out.append([{"type": "record", "name": "ZEvent", "fields": [{"name": "v", "type": "boolean"}]},
+                {"type": "record", "name": "Event", "fields": [{"name": "v", "type": "string"}]},
+                {"type": "enum", "name": "OtherKind", "symbols": ["A", "B"]}, {"type": "enum", "name": "Kind", "symbols": ["B", "A"]}])
+    # unions of records where a later branch is recursive / uses its own nested named type twice
+    out.append([R1(), {"type": "record", "name": "Node", "fields": [{"name": "value", "type": "int"}, {"name": "next", "type": ["null", "Node"]}]}])
+    out.append(["null", {"type": "record", "name": "Fst", "fields": [{"name": "q", "type": "string"}]},
+                {"type": "record", "name": "Snd", "fields": [{"name": "e", "type": {"type": "enum", "name": "Es", "symbols": ["A", "B"]}}, {"name": "e2", "type": "Es"},
+                                                             {"name": "es", "type": {"type": "array", "items": "Es"}}]}])
     out.append(["null", R1(), {"type": "record", "name": "R2", "fields": [{"name": "x", "type": "int"}, {"name": "y", "type": ["null", "R1"], "default": None}]}])
     out.append({"type": "array", "items": [R1(), "null", {"type": "map", "values": "R1"}]})
     out.append({"type": "map", "values": {"type": "array", "items": {"type": "map", "values": ["int", "string"]}}})
